@@ -84,3 +84,51 @@ func VxH_C13_columns() {
 	vx.Assert("row-height-at-least-specified", r0.Height.V() >= hr-0.001)
 	vx.Assert("cell-padding-not-negative", vx.And(a.PaddingBottom.V() >= -0.001, b.PaddingBottom.V() >= -0.001))
 }
+
+// fixed table layout with a column that has no width: the widths are never negative, columns
+// and spacing fill the used table width exactly, and the used width is at least the specified
+// one (a table too narrow for its specified columns and spacing grows).
+func VxH_C13_fixed_auto_column() {
+	doc, err := tree.NewHTML(utils.InputString("<html><head><style>head{display:none} .c{width:auto}</style></head><body><table><tr><td></td><th></th><td class=c></td></tr></table></body></html>"), "", nil, "")
+	if err != nil {
+		panic(err)
+	}
+	rng := func(id string, lo, hi pr.Float) pr.Float {
+		v := pr.Float(vx.F32(id))
+		vx.Assume(vx.And(v >= lo, v <= hi))
+		return v
+	}
+	W := rng("table-width", 20, 300)
+	w1, w2 := rng("w1", 0, 150), rng("w2", 0, 150)
+	sp := rng("spacing", 0, 20)
+	D := func(p pr.KnownProp, v pr.DeclaredValue) tree.VxDecl { return tree.VxDecl{Prop: p, Value: v} }
+	zero := vxPxV(0)
+	pad := []tree.VxDecl{D(pr.PPaddingLeft, zero), D(pr.PPaddingRight, zero), D(pr.PPaddingTop, zero), D(pr.PPaddingBottom, zero), D(pr.PHeight, vxPxV(10))}
+	sheet := tree.VxSheet(
+		tree.VxRule{Tag: "table", Decls: []tree.VxDecl{D(pr.PTableLayout, pr.String("fixed")), D(pr.PWidth, vxPxV(W)),
+			D(pr.PBorderSpacing, pr.Point{pr.Dimension{Value: sp, Unit: pr.Px}, pr.Dimension{Value: sp, Unit: pr.Px}})}},
+		tree.VxRule{Tag: "td", Decls: append([]tree.VxDecl{D(pr.PWidth, vxPxV(w1))}, pad...)},
+		tree.VxRule{Tag: "th", Decls: append([]tree.VxDecl{D(pr.PWidth, vxPxV(w2))}, pad...)},
+	)
+	pages := Layout(doc, []tree.CSS{sheet}, false, nil)
+	vx.Reach("laid-out")
+	var tables, cells []Box
+	vxAll(pages[0], func(b Box) bool { return bo.TableT.IsInstance(b) }, &tables)
+	vxAll(pages[0], func(b Box) bool { return bo.TableCellT.IsInstance(b) }, &cells)
+	vx.Assert("structure", len(tables) == 1 && len(cells) == 3)
+	t := tables[0].Box()
+	a, b, c := cells[0].Box(), cells[1].Box(), cells[2].Box()
+	eq := func(x, y pr.Float) bool { return vx.ApproxEq(float64(x), float64(y)) }
+	vx.Assert("no-negative-width", vx.And(a.Width.V() >= 0, vx.And(b.Width.V() >= 0, c.Width.V() >= 0)))
+	vx.Assert("used-width-at-least-specified", t.Width.V() >= W-0.001)
+	vx.Assert("columns-and-spacing-fill-the-table", eq(a.Width.V()+b.Width.V()+c.Width.V()+4*sp, t.Width.V()))
+	vx.Assert("specified-columns-kept", vx.And(eq(a.Width.V(), w1), eq(b.Width.V(), w2)))
+	if float64(w1+w2+4*sp) <= float64(W) {
+		vx.Reach("fits")
+		vx.Assert("table-width-as-specified", eq(t.Width.V(), W))
+		vx.Assert("auto-column-takes-the-rest", eq(c.Width.V(), W-w1-w2-4*sp))
+	} else {
+		vx.Reach("too-narrow")
+		vx.Assert("auto-column-collapses", eq(c.Width.V(), 0))
+	}
+}
